@@ -171,11 +171,10 @@ func runC04(c *Ctx) {
 				x := &v1.OperatorClaims{}
 				g.fillValue(reflect.ValueOf(x).Elem())
 				x.Subject = kr.by["operator"].pub
-				if g.rng.Intn(2) == 0 {
-					x.AccountServerURL = ""
-				} else {
-					x.AccountServerURL = "https://example.com/jwt/v1"
-				}
+				// (every URL the version-1 encoder accepted - any that parses and has a scheme: with a port, a query, a
+				// fragment, credentials, another scheme - migrates and can be written again as version 2)
+				x.AccountServerURL = []string{"", "https://example.com/jwt/v1", "https://accounts.example.com:9090/jwt/v1?tenant=blue", "https://example.com/jwt/v1#operator",
+					"http://user:pw@localhost:8080/jwt/v1/", "nats://localhost:4222", "HTTPS://Example.COM/jwt/v1/?a=1&b=2#x", "https://[::1]:9090/jwt/v1"}[g.rng.Intn(8)]
 				src, s = x, kr.by["operator"]
 			case "account":
 				x := &v1.AccountClaims{}
